@@ -207,8 +207,17 @@ def register_leaf_nodes(db):
     collab.field(db, "XmlMeta", "mixed_content", "bool")
     collab.field(db, "DataType", "type", "u:type")
     collab.field(db, "DataType", "format", "str|None")
-    collab.field(db, "DataType", "wrapper", "u:Any")  # a callable or a falsy value
-    db.opaque_ops[("Types", "contains")] = lambda ex, st, v, item: iter([(st, __import__("pyvc.contracts", fromlist=["pure_result"]).pure_result(ex, st, "Types.has", "bool", [v]))])
+    collab.field(db, "DataType", "wrapper", "u:Wrapper")  # a bytes subclass (XmlHexBinary / XmlBase64Binary) or None
+    assume_method(db, "Wrapper", "__call__", returns="u:Any")
+    def types_has(ex, st, v, item):
+        # membership in the declared types of a field: a function of (types, item); a class given by name (bytes) is
+        # identified by that name
+        from pyvc.contracts import pure_result
+        from pyvc.values import ClassRef, TypeRef
+        key = item.name if isinstance(item, TypeRef) else (f"{item.module}.{item.qualname}" if isinstance(item, ClassRef) else item)
+        yield st, pure_result(ex, st, "Types.has", "bool", [v, key])
+
+    db.opaque_ops[("Types", "contains")] = types_has
 
     def primitive(mk, base):
         return mk.obj(f"{NODES}.primitive:PrimitiveNode", {"meta": "opaque:XmlMeta", "var": "opaque:XmlVar", "ns_map": "opaque:PyDict",
@@ -229,7 +238,10 @@ def register_leaf_nodes(db):
                     raises={"ParserError": True, "ConverterError": True}, properties=["C15", "C09"]))
     db.add(Contract(f"{NODES}.standard:StandardNode.bind", params={"self": standard, **ARGS},
                     ensures=COMMON + [("converted-as-the-xsi-type-datatype",
-                                       f"call_arg('{PV}', 7)[0] is self.datatype.type and call_arg('{PV}', 9) == self.datatype.format")],
+                                       f"call_arg('{PV}', 7)[0] is self.datatype.type and call_arg('{PV}', 9) == self.datatype.format"),
+                                      # pre-condition of the wrapper classes (bytes subclasses: bytes(x) of a str is a TypeError)
+                                      ("the-binary-wrapper-is-applied-only-to-a-value-of-the-datatype-python-type",
+                                       "implies(called('Wrapper.__call__') == 1, isinstance(call_arg('Wrapper.__call__', 0), self.datatype.type))")],
                     raises={"ParserError": True, "ConverterError": True}, properties=["C15", "C09"]))
 
 
